@@ -100,7 +100,7 @@ static int acquire(int th, int m, int kind) {
 }
 static void release(int th, int m) {
   wit_leave(&wit[m], "unlock");
-  myth_mutex_unlock(&mtx[m]);
+  { int ur = myth_mutex_unlock(&mtx[m]); if (ur != 0) mt_fail("myth_mutex_unlock of a mutex held by the caller returned %d (documented: zero if it succeeds)", ur); }
   logev(th, m, E_UNL_RET, 0);
   mv_progress();
 }
